@@ -3,6 +3,7 @@ import Toodee.Spec.History
 import Toodee.Spec.Cells
 import Toodee.Proofs.OwnershipLemmas
 import Toodee.Proofs.HistoryLemmas
+import Toodee.Proofs.HistoryFlow
 import Toodee.Properties.C01
 /-
   C05 — Every element is dropped exactly once (the accounting law).
@@ -101,30 +102,317 @@ theorem C05_upd_length (v : VW) (buf : List α) (f : Nat × Nat → Option α) :
     written values -/
 theorem C05_overwrite_conserves (t : TD α) (h : t.Inv) (f : Nat × Nat → Option α) :
     (t.asView.updCells t.data f ++ t.overwritten f).Perm (t.data ++ t.written f) := by
-  sorry
+  have _ := h
+  exact fl_overwrite_conserves t f
+
+/-! helper lemmas: the flow of each drain / insert step -/
+
+/-- chaining two conservation steps: handed, dropped, leaked and supplied elements accumulate -/
+private theorem fl_chain4 {A0 A1 A2 H1 H2 D1 D2 L1 L2 S1 S2 : List α}
+    (h1 : (A1 ++ H1 ++ D1 ++ L1).Perm (A0 ++ S1)) (h2 : (A2 ++ H2 ++ D2 ++ L2).Perm (A1 ++ S2)) :
+    (A2 ++ (H1 ++ H2) ++ (D1 ++ D2) ++ (L1 ++ L2)).Perm (A0 ++ (S1 ++ S2)) := by
+  have e0 : (A2 ++ (H1 ++ H2) ++ (D1 ++ D2) ++ (L1 ++ L2)).Perm (A2 ++ ((H1 ++ D1 ++ L1) ++ (H2 ++ D2 ++ L2))) := by
+    rw [List.append_assoc, List.append_assoc]
+    apply List.Perm.append_left
+    rw [← List.append_assoc]
+    exact ((fl_shuffle H1 H2 D1 D2).append_right _).trans (fl_shuffle (H1 ++ D1) (H2 ++ D2) L1 L2)
+  have e1 : (A2 ++ ((H1 ++ D1 ++ L1) ++ (H2 ++ D2 ++ L2))).Perm (A2 ++ (H2 ++ D2 ++ L2) ++ (H1 ++ D1 ++ L1)) := by
+    have := ow_perm_swap_tail A2 (H1 ++ D1 ++ L1) (H2 ++ D2 ++ L2)
+    rw [List.append_assoc A2 (H1 ++ D1 ++ L1) (H2 ++ D2 ++ L2)] at this
+    exact this
+  have h2' : (A2 ++ (H2 ++ D2 ++ L2)).Perm (A1 ++ S2) := by
+    rw [← List.append_assoc, ← List.append_assoc]; exact h2
+  have h1' : (A1 ++ (H1 ++ D1 ++ L1)).Perm (A0 ++ S1) := by
+    rw [← List.append_assoc, ← List.append_assoc]; exact h1
+  have e2 : (A2 ++ (H2 ++ D2 ++ L2) ++ (H1 ++ D1 ++ L1)).Perm (A1 ++ S2 ++ (H1 ++ D1 ++ L1)) := h2'.append_right _
+  have e3 : (A1 ++ S2 ++ (H1 ++ D1 ++ L1)).Perm (A1 ++ (H1 ++ D1 ++ L1) ++ S2) := ow_perm_swap_tail _ _ _
+  have e4 : (A1 ++ (H1 ++ D1 ++ L1) ++ S2).Perm (A0 ++ S1 ++ S2) := h1'.append_right _
+  have e5 : A0 ++ (S1 ++ S2) = A0 ++ S1 ++ S2 := (List.append_assoc ..).symm
+  rw [e5]
+  exact (((e0.trans e1).trans e2).trans e3).trans e4
+
+private theorem fl_rowCells_items (m : Mode) (t : TD α) (h : t.Inv) (i : Nat) (hi : i < t.numRows) (d : DrainRow α)
+    (hd : t.removeRow m i = .ok d) : d.items = t.rowCells i := by
+  obtain ⟨d', hd', hit, _⟩ := C07_remove_row m t h i hi
+  rw [hd] at hd'
+  injection hd' with e
+  subst e
+  exact hit
+
+private theorem fl_step_removeRow (e : HEnv) (t : TD α) (h : t.Inv) (i : Nat) (w : List Bool) :
+    ((hstep e t (.removeRow i w)).data ++ (hflow e t (.removeRow i w)).handed ++ (hflow e t (.removeRow i w)).dropped
+      ++ (hflow e t (.removeRow i w)).leaked).Perm (t.data ++ (hflow e t (.removeRow i w)).supplied) ∧
+    (hflow e t (.removeRow i w)).leaked = [] := by
+  simp only [hstep, hflow]
+  by_cases hi : i < t.numRows
+  · obtain ⟨d, hd, _, _, _, _, hp⟩ := C07_remove_row_run e.m t h i hi w
+    have hdata : (d.run w).2.drop.1.data = d.drop.1.data := by rw [dr_row_run]; rfl
+    have h0 := C05_remove_row e.m t h i hi d hd
+    rw [fl_rowCells_items e.m t h i hi d hd] at h0
+    rw [hd]
+    refine ⟨?_, rfl⟩
+    show ((d.run w).2.drop.1.data ++ (d.run w).1 ++ (d.run w).2.drop.2 ++ []).Perm (t.data ++ [])
+    rw [hdata, List.append_nil, List.append_nil, List.append_assoc]
+    exact (List.Perm.append_left _ hp).trans h0
+  · rw [C07_remove_row_reject e.m t i hi]
+    exact ⟨by simp, rfl⟩
+
+private theorem fl_step_removeRowLeak (e : HEnv) (t : TD α) (h : t.Inv) (i : Nat) (w : List Bool) :
+    ((hstep e t (.removeRowLeak i w)).data ++ (hflow e t (.removeRowLeak i w)).handed
+      ++ (hflow e t (.removeRowLeak i w)).dropped ++ (hflow e t (.removeRowLeak i w)).leaked).Perm
+      (t.data ++ (hflow e t (.removeRowLeak i w)).supplied) := by
+  simp only [hstep, hflow]
+  by_cases hi : i < t.numRows
+  · obtain ⟨d, hd, _, _, _, _, hp⟩ := C12_leak_drain_row_run e.m t h i hi w
+    rw [hd]
+    show ((d.run w).2.leak.1.data ++ (d.run w).1 ++ [] ++ (d.run w).2.leak.2).Perm (t.data ++ [])
+    rw [List.append_nil, List.append_nil]
+    exact hp
+  · rw [C07_remove_row_reject e.m t i hi]
+    simp
+
+private theorem fl_step_popRow (e : HEnv) (t : TD α) (h : t.Inv) (w : List Bool) :
+    ((hstep e t (.popRow w)).data ++ (hflow e t (.popRow w)).handed ++ (hflow e t (.popRow w)).dropped
+      ++ (hflow e t (.popRow w)).leaked).Perm (t.data ++ (hflow e t (.popRow w)).supplied) ∧
+    (hflow e t (.popRow w)).leaked = [] := by
+  by_cases h0 : t.numRows = 0
+  · simp only [hstep, hflow, (C07_pop_row e.m t h).1 h0]
+    exact ⟨by simp, trivial⟩
+  · obtain ⟨d, hd, _⟩ := C07_remove_row e.m t h (t.numRows - 1) (by omega)
+    have hp := hs_popRow_some e.m t h h0 d hd
+    have hr := fl_step_removeRow e t h (t.numRows - 1) w
+    simp only [hstep, hflow, hd] at hr
+    simp only [hstep, hflow, hp]
+    exact hr
+
+/-- the cells left after removing the only column: none -/
+private theorem fl_erase_only_col (rows : List (List α)) (hrow : ∀ ρ ∈ rows, ρ.length = 1) (i : Nat) (hi : i < 1) :
+    (rows.map fun ρ => ρ.eraseIdx i).flatten = [] := by
+  rw [List.flatten_eq_nil_iff]
+  intro l hl
+  obtain ⟨ρ, hρ, rfl⟩ := List.mem_map.1 hl
+  apply List.eq_nil_of_length_eq_zero
+  rw [List.length_eraseIdx_of_lt (by rw [hrow ρ hρ]; exact hi), hrow ρ hρ]
+
+private theorem fl_removeCol_data (t : TD α) (i : Nat) (hi : i < t.numCols) (t' : TD α) (hinv : t'.Inv)
+    (hg : t'.grid = (if t.numCols = 1 then [] else t.grid.map fun ρ => ρ.eraseIdx i)) :
+    t'.data = (t.grid.map fun ρ => ρ.eraseIdx i).flatten := by
+  rw [hinv.data_eq_flatten_grid, hg]
+  by_cases h1 : t.numCols = 1
+  · rw [if_pos h1, fl_erase_only_col t.grid (fun ρ hρ => by rw [t.grid_row_length ρ hρ, h1]) i (by omega)]
+    rfl
+  · rw [if_neg h1]
+
+private theorem fl_step_removeCol (e : HEnv) (t : TD α) (h : t.Inv) (i : Nat) (w : List Bool) :
+    ((hstep e t (.removeCol i w)).data ++ (hflow e t (.removeCol i w)).handed ++ (hflow e t (.removeCol i w)).dropped
+      ++ (hflow e t (.removeCol i w)).leaked).Perm (t.data ++ (hflow e t (.removeCol i w)).supplied) ∧
+    (hflow e t (.removeCol i w)).leaked = [] := by
+  by_cases hi : i < t.numCols
+  · obtain ⟨d, ys, d', t', dropped, hd, hrun, hdrop, hs, _, _, _, hinv, hg, hp⟩ := hs_step_removeCol e t h i hi w
+    rw [hs]
+    simp only [hflow, hd, ok_bind, hrun, hdrop, pure_eq]
+    refine ⟨?_, trivial⟩
+    rw [fl_removeCol_data t i hi t' hinv hg, List.append_nil, List.append_nil, List.append_assoc]
+    exact (List.Perm.append_left _ hp).trans (C05_remove_col t h i hi)
+  · rw [(hs_step_removeCol_reject e t i hi w).1]
+    simp only [hflow, C07_remove_col_reject e.m t i hi, err_bind]
+    exact ⟨by simp, trivial⟩
+
+private theorem fl_step_popCol (e : HEnv) (t : TD α) (h : t.Inv) (w : List Bool) :
+    ((hstep e t (.popCol w)).data ++ (hflow e t (.popCol w)).handed ++ (hflow e t (.popCol w)).dropped
+      ++ (hflow e t (.popCol w)).leaked).Perm (t.data ++ (hflow e t (.popCol w)).supplied) ∧
+    (hflow e t (.popCol w)).leaked = [] := by
+  by_cases h0 : t.numCols = 0
+  · rw [(hs_step_popCol_none e t h h0 w).1]
+    simp only [hflow, (C07_pop_col e.m t h).1 h0, ok_bind, pure_eq]
+    exact ⟨by simp, trivial⟩
+  · obtain ⟨d, ys, d', t', dropped, hd, hrun, hdrop, _⟩ := hs_step_removeCol e t h (t.numCols - 1) (by omega) w
+    have hp := hs_popCol_some e.m t h h0 d hd
+    have hr := fl_step_removeCol e t h (t.numCols - 1) w
+    rw [(hs_step_popCol e t h h0 w).1]
+    simp only [hflow, hd, ok_bind, hrun, hdrop, pure_eq] at hr
+    simp only [hflow, hp, ok_bind, hrun, hdrop, pure_eq]
+    exact hr
+
+private theorem fl_step_removeColLeak (e : HEnv) (t : TD α) (h : t.Inv) (i : Nat) (w : List Bool) :
+    ((hstep e t (.removeColLeak i w)).data ++ (hflow e t (.removeColLeak i w)).handed
+      ++ (hflow e t (.removeColLeak i w)).dropped ++ (hflow e t (.removeColLeak i w)).leaked).Perm
+      (t.data ++ (hflow e t (.removeColLeak i w)).supplied) := by
+  by_cases hi : i < t.numCols
+  · obtain ⟨d, ys, d', hd, hrun, hs, _, hp⟩ := hs_step_removeColLeak e t h i hi w
+    rw [hs]
+    simp only [hflow, hd, ok_bind, hrun, pure_eq]
+    rw [List.append_nil, List.append_nil, List.nil_append]
+    exact hp
+  · rw [(hs_step_removeColLeak_reject e t i hi w).1]
+    simp only [hflow, C07_remove_col_reject e.m t i hi, err_bind]
+    simp
 
 /-- **one call conserves elements**: what the array owns afterwards, plus what was handed to the caller, plus what the crate
     dropped, plus what was leaked, is exactly what the array owned before plus what the call took from the caller -/
 theorem C05_step_conserves (e : HEnv) (he : e.ok) (t : TD α) (h : t.Inv) (op : HOp α) (hop : op.wf) :
     ((hstep e t op).data ++ (hflow e t op).handed ++ (hflow e t op).dropped ++ (hflow e t op).leaked).Perm
       (t.data ++ (hflow e t op).supplied) := by
-  sorry
+  cases op with
+  | fromVec c r v =>
+    simp only [hstep, hflow]
+    by_cases hs : shapeOk c r ∧ c * r = v.length
+    · obtain ⟨t', e', _, _, _, hdata⟩ := (C20_from_vec c r v).1 hs
+      rw [e']
+      show (t'.data ++ [] ++ t.data ++ []).Perm (t.data ++ v)
+      rw [hdata, List.append_nil, List.append_nil]
+      exact List.perm_append_comm
+    · rw [(C20_from_vec c r v).2 hs]
+      show (t.data ++ [] ++ v ++ []).Perm (t.data ++ v)
+      rw [List.append_nil, List.append_nil]
+  | insertRow i it spare =>
+    have hp := (C11_insert_row e.m e.cap t h i it spare (Or.inl hop) he).2.2.2
+    show ((t.insertRow e.m e.cap i it spare).t.data ++ (t.insertRow e.m e.cap i it spare).rest.filterMap id ++ []
+      ++ (t.insertRow e.m e.cap i it spare).leaked).Perm (t.data ++ it.events.filterMap id)
+    rw [List.append_nil]
+    exact (ow_perm_swap_tail _ _ _).trans hp
+  | insertCol i it spare =>
+    have hp := (C11_insert_col e.m e.cap t h i it spare (Or.inl hop) he).2.2.2
+    show ((t.insertCol e.m e.cap i it spare).t.data ++ (t.insertCol e.m e.cap i it spare).rest.filterMap id ++ []
+      ++ (t.insertCol e.m e.cap i it spare).leaked).Perm (t.data ++ it.events.filterMap id)
+    rw [List.append_nil]
+    exact (ow_perm_swap_tail _ _ _).trans hp
+  | removeRow i w => exact (fl_step_removeRow e t h i w).1
+  | removeCol i w => exact (fl_step_removeCol e t h i w).1
+  | popRow w => exact (fl_step_popRow e t h w).1
+  | popCol w => exact (fl_step_popCol e t h w).1
+  | removeRowLeak i w => exact fl_step_removeRowLeak e t h i w
+  | removeColLeak i w => exact fl_step_removeColLeak e t h i w
+  | clear =>
+    show (([] : List α) ++ [] ++ t.data ++ []).Perm (t.data ++ [])
+    simp
+  | swapDimensions =>
+    show (t.data ++ [] ++ [] ++ []).Perm (t.data ++ [])
+    simp
+  | capacityCall =>
+    show (t.data ++ [] ++ [] ++ []).Perm (t.data ++ [])
+    simp
+  | takeInto k =>
+    show (([] : List α) ++ t.data.take k ++ t.data.drop k ++ []).Perm (t.data ++ [])
+    simp
+  | inplace op => exact (fl_step_inplace e t h op hop).1
 
 /-- **any history conserves elements** -/
 theorem C05_history_conserves (e : HEnv) (he : e.ok) (t : TD α) (h : t.Inv) (ops : List (HOp α)) (hops : ∀ op ∈ ops, op.wf) :
     ((hrun e t ops).data ++ (hflowRun e t ops).handed ++ (hflowRun e t ops).dropped ++ (hflowRun e t ops).leaked).Perm
       (t.data ++ (hflowRun e t ops).supplied) := by
-  sorry
+  induction ops generalizing t with
+  | nil =>
+    show (t.data ++ [] ++ [] ++ []).Perm (t.data ++ [])
+    simp
+  | cons op ops ih =>
+    have hop := hops op (List.mem_cons_self ..)
+    have h1 := C05_step_conserves e he t h op hop
+    have h2 := ih (hstep e t op) (C01_step_inv e he t h op hop) (fun o ho => hops o (List.mem_cons_of_mem _ ho))
+    exact fl_chain4 h1 h2
+
+/-- an honest iterator script is `honest xs` -/
+private theorem fl_honest_script (it : IterScript α) (hon : it.events.all Option.isSome ∧ it.claimed = it.events.length) :
+    it = honest (it.events.filterMap id) := by
+  apply hs_events_honest it hon.1
+  rw [hon.2]
+  conv => lhs; rw [hs_all_some it.events hon.1]
+  rw [List.length_map]
+
+private theorem fl_insertRow_no_leak (m : Mode) (cap : Nat) (hcapw : cap < WORD) (t : TD α) (h : t.Inv) (i : Nat)
+    (xs spare : List α) (hsp : xs.length ≤ spare.length) :
+    (t.insertRow m cap i (honest xs) spare).leaked = [] := by
+  by_cases hacc : i ≤ t.numRows ∧ (t.numRows = 0 ∨ (honest xs).claimed = t.numCols)
+  · have hn : (if t.numRows = 0 then (honest xs).claimed else t.numCols) = xs.length := by
+      by_cases h0 : t.numRows = 0
+      · rw [if_pos h0]; rfl
+      · rw [if_neg h0]
+        rcases hacc.2 with h1 | h1
+        · exact absurd h1 h0
+        · exact h1.symm
+    by_cases hres : reserveOk cap t.data.length xs.length = true
+    · have hcap : t.data.length + xs.length ≤ cap := by simpa [reserveOk] using hres
+      exact (C06_insert_row_ok m cap t h i xs spare hacc.1 hacc.2 hcap hsp (by omega)).2.2.1
+    · unfold TD.insertRow
+      rw [if_neg (Decidable.not_not.2 hacc.1)]
+      simp only [hn]
+      split
+      · rfl
+      · rw [if_pos (by simpa using hres)]
+  · exact (C06_insert_row_reject m cap t i (honest xs) spare hacc).2.2.2
+
+private theorem fl_insertCol_no_leak (m : Mode) (cap : Nat) (hcapw : cap < WORD) (t : TD α) (h : t.Inv) (i : Nat)
+    (xs spare : List α) (hsp : xs.length ≤ spare.length) :
+    (t.insertCol m cap i (honest xs) spare).leaked = [] := by
+  by_cases hacc : i ≤ t.numCols ∧ (t.numCols = 0 ∨ (honest xs).claimed = t.numRows)
+  · have hn : (if t.numCols = 0 then (honest xs).claimed else t.numRows) = xs.length := by
+      by_cases h0 : t.numCols = 0
+      · rw [if_pos h0]; rfl
+      · rw [if_neg h0]
+        rcases hacc.2 with h1 | h1
+        · exact absurd h1 h0
+        · exact h1.symm
+    by_cases hres : reserveOk cap t.data.length xs.length = true
+    · have hcap : t.data.length + xs.length ≤ cap := by simpa [reserveOk] using hres
+      exact (C06_insert_col_ok m cap t h i xs spare hacc.1 hacc.2 hcap hsp (by omega)).2.2.1
+    · unfold TD.insertCol
+      rw [if_neg (Decidable.not_not.2 hacc.1)]
+      simp only [hn]
+      split
+      · rfl
+      · rw [if_pos (by simpa using hres)]
+  · exact (C06_insert_col_reject m cap t i (honest xs) spare hacc).2.2.2
 
 /-- a call during which no caller code panics, no iterator lies and nothing is forgotten leaks nothing -/
 theorem C05_step_no_leak (e : HEnv) (he : e.ok) (t : TD α) (h : t.Inv) (op : HOp α) (hop : op.wf) (hon : op.honest) :
     (hflow e t op).leaked = [] := by
-  sorry
+  cases op with
+  | fromVec c r v =>
+    simp only [hflow]
+    cases TD.fromVec c r v <;> rfl
+  | insertRow i it spare =>
+    have hit := fl_honest_script it hon
+    have hsp : (it.events.filterMap id).length ≤ spare.length := by
+      have : it.claimed ≤ spare.length := hop
+      rw [hit] at this
+      exact this
+    show (t.insertRow e.m e.cap i it spare).leaked = []
+    rw [hit]
+    exact fl_insertRow_no_leak e.m e.cap he t h i _ spare hsp
+  | insertCol i it spare =>
+    have hit := fl_honest_script it hon
+    have hsp : (it.events.filterMap id).length ≤ spare.length := by
+      have : it.claimed ≤ spare.length := hop
+      rw [hit] at this
+      exact this
+    show (t.insertCol e.m e.cap i it spare).leaked = []
+    rw [hit]
+    exact fl_insertCol_no_leak e.m e.cap he t h i _ spare hsp
+  | removeRow i w => exact (fl_step_removeRow e t h i w).2
+  | removeCol i w => exact (fl_step_removeCol e t h i w).2
+  | popRow w => exact (fl_step_popRow e t h w).2
+  | popCol w => exact (fl_step_popCol e t h w).2
+  | removeRowLeak i w => exact absurd hon id
+  | removeColLeak i w => exact absurd hon id
+  | clear => rfl
+  | swapDimensions => rfl
+  | capacityCall => rfl
+  | takeInto k => rfl
+  | inplace op => exact (fl_step_inplace e t h op hop).2
 
 theorem C05_history_no_leak (e : HEnv) (he : e.ok) (t : TD α) (h : t.Inv) (ops : List (HOp α)) (hops : ∀ op ∈ ops, op.wf)
     (hon : ∀ op ∈ ops, op.honest) :
     (hflowRun e t ops).leaked = [] := by
-  sorry
+  induction ops generalizing t with
+  | nil => rfl
+  | cons op ops ih =>
+    have hop := hops op (List.mem_cons_self ..)
+    have h1 := C05_step_no_leak e he t h op hop (hon op (List.mem_cons_self ..))
+    have h2 := ih (hstep e t op) (C01_step_inv e he t h op hop) (fun o ho => hops o (List.mem_cons_of_mem _ ho))
+      (fun o ho => hon o (List.mem_cons_of_mem _ ho))
+    show (hflow e t op).leaked ++ (hflowRun e (hstep e t op) ops).leaked = []
+    rw [h1, h2]
+    rfl
 
 /-- **the second sentence of the property**: after a history in which nothing panics and nothing is leaked, once the array is
     dropped (`clear` drops the same cells) no element is left undropped: everything the array ever held or was given has been
@@ -133,14 +421,31 @@ theorem C05_history_all_accounted (e : HEnv) (he : e.ok) (t : TD α) (h : t.Inv)
     (hon : ∀ op ∈ ops, op.honest) :
     ((hflowRun e t (ops ++ [.clear])).handed ++ (hflowRun e t (ops ++ [.clear])).dropped).Perm
       (t.data ++ (hflowRun e t (ops ++ [.clear])).supplied) := by
-  sorry
+  have hops' : ∀ op ∈ ops ++ [HOp.clear], op.wf := by
+    intro op hm
+    rcases List.mem_append.1 hm with h1 | h1
+    · exact hops op h1
+    · rw [List.mem_singleton.1 h1]; trivial
+  have hon' : ∀ op ∈ ops ++ [HOp.clear], op.honest := by
+    intro op hm
+    rcases List.mem_append.1 hm with h1 | h1
+    · exact hon op h1
+    · rw [List.mem_singleton.1 h1]; trivial
+  have hc := C05_history_conserves e he t h _ hops'
+  have hl := C05_history_no_leak e he t h _ hops' hon'
+  have hd : (hrun e t (ops ++ [.clear])).data = [] := by
+    unfold hrun
+    rw [List.foldl_append]
+    rfl
+  rw [hd, hl, List.append_nil, List.nil_append] at hc
+  exact hc
 
 /-- with unique element identities: along any history no element is both still in the array and already handed out / dropped /
     leaked, and none is handed out, dropped or leaked twice -/
 theorem C05_history_exactly_once (e : HEnv) (he : e.ok) (t : TD α) (h : t.Inv) (ops : List (HOp α)) (hops : ∀ op ∈ ops, op.wf)
     (hnd : (t.data ++ (hflowRun e t ops).supplied).Nodup) :
-    ((hrun e t ops).data ++ (hflowRun e t ops).handed ++ (hflowRun e t ops).dropped ++ (hflowRun e t ops).leaked).Nodup := by
-  sorry
+    ((hrun e t ops).data ++ (hflowRun e t ops).handed ++ (hflowRun e t ops).dropped ++ (hflowRun e t ops).leaked).Nodup :=
+  ((C05_history_conserves e he t h ops hops).nodup_iff).2 hnd
 
 /-- non-vacuity: a concrete history with its flow -/
 example :
@@ -149,6 +454,6 @@ example :
       [.insertRow 0 (honest [1, 2, 3]) [0, 0, 0], .insertRow 1 (honest [4, 5, 6]) [0, 0, 0], .removeCol 1 [true],
        .inplace (.set 0 0 9), .takeInto 1]
     hflowRun e (TD.default : TD Nat) ops = ⟨[1, 2, 3, 4, 5, 6, 9], [2, 9], [5, 1, 3, 4, 6], []⟩ := by
-  sorry
+  rfl
 
 end Toodee
